@@ -149,32 +149,23 @@ Fixpoint attach_keys (ka : nat -> mdata -> b_key) (idx : nat) (mds : list mdata)
 (* Match.v's evaluation, every transformed value obtained through the cache              *)
 (* ------------------------------------------------------------------------------------ *)
 Fixpoint eval_targets_c (X : sem) (ord : oracle) (ko : bkor) (pidf : link -> list nat) (st : state)
-         (l : link) (neg : bool) (o : op) (i : nat) (cps : list cparams) (cs : b_cst) : list mdata * b_cst :=
+         (l : link) (neg : bool) (o : op) (i : nat) (cps : list cparams) (cs : b_cst) : (list mdata * state) * b_cst :=
   match cps with
-  | [] => ([], cs)
+  | [] => (([], st), cs)
   | c :: r =>
     let mds := get_field X (sub ord i) st c in
     let '(ins, cs1) := field_inputs_cached pidf l 0 (attach_keys (ko [i]) 0 mds) cs in
-    let '(rest, cs2) := eval_targets_c X ord ko pidf st l neg o (S i) r cs1 in
-    (matches_of_inputs X neg o mds ins ++ rest, cs2)
+    let ms := matches_of_inputs X neg o mds ins in
+    (* every match runs tx.matchVariable at once: the next target reads the updated MATCHED_* *)
+    let '((rest, st'), cs2) := eval_targets_c X ord ko pidf (fold_left match_variable ms st) l neg o (S i) r cs1 in
+    ((ms ++ rest, st'), cs2)
   end.
 
 Definition link_matches_c (X : sem) (ord : oracle) (ko : bkor) (pidf : link -> list nat) (st : state)
-           (l : link) (cs : b_cst) : list mdata * b_cst :=
+           (l : link) (cs : b_cst) : (list mdata * state) * b_cst :=
   match l_kind l with
-  | LAction _ => ([(VUnknown, [], [])], cs)
+  | LAction svs => (([unknown_md], fold_left apply_setvar svs (match_variable st unknown_md)), cs)
   | LRule neg o => eval_targets_c X ord ko pidf st l neg o 0 (compile_items X (l_items l) []) cs
-  end.
-
-(* Match.link_post with the link's matches given (doEvaluate evaluates a link once) *)
-Definition link_post_from (st : state) (l : link) (ms : list mdata) : state :=
-  match l_kind l with
-  | LAction svs => fold_left apply_setvar svs (set_mvar st [])
-  | LRule _ _ =>
-    match rev ms with
-    | [] => st
-    | m :: _ => set_mvar st (md_value m)
-    end
   end.
 
 Fixpoint eval_chain_c (X : sem) (ord : oracle) (ko : bkor) (pidf : link -> list nat) (st : state)
@@ -182,8 +173,7 @@ Fixpoint eval_chain_c (X : sem) (ord : oracle) (ko : bkor) (pidf : link -> list 
   match ls with
   | [] => ((Some [], st), cs)
   | l :: r =>
-    let '(ms, cs1) := link_matches_c X (sub ord lvl) (ksub ko lvl) pidf st l cs in
-    let st' := link_post_from st l ms in
+    let '((ms, st'), cs1) := link_matches_c X (sub ord lvl) (ksub ko lvl) pidf st l cs in
     if is_nil ms then ((None, st'), cs1)
     else match eval_chain_c X ord ko pidf st' (S lvl) r cs1 with
          | ((Some rest, st''), cs2) => ((Some (tag lvl ms ++ rest), st''), cs2)
@@ -205,7 +195,7 @@ Fixpoint eval_rules_c (X : sem) (ord : oracle) (ko : bkor) (pidf : link -> list 
   | [] => (([], st), cs)
   | r :: rest =>
     if in_phase ph r then
-      let '((res, st'), cs1) := eval_rule_c X (sub ord i) (ksub ko i) pidf st r cs in
+      let '((res, st'), cs1) := eval_rule_c X (sub ord i) (ksub ko i) pidf (set_mvars st []) r cs in
       let '((out, st''), cs2) := eval_rules_c X ord ko pidf st' ph (S i) rest cs1 in
       ((match res with
         | Some mds => if (r_id r =? 0)%N then out else (r_id r, mds) :: out
